@@ -18,6 +18,7 @@ static std::vector<uint8_t> g_bank;     // 1 melodic + 1 percussion bank
 static std::vector<uint8_t> g_song;     // 2-track SMF for the sequencer-driven ops
 static std::string g_prop = "C04";
 static int g_chips = 1;
+static int g_koff_scale = 1;   // --koff-scale: multiplies every release time of the bank (long release tails for the C06 scoring)
 
 static const int CHS[2] = {0, 9};
 static const int KEYS3[3] = {60, 62, 64};
@@ -31,6 +32,7 @@ static void build_bank() {
     pl::InsSpec d1; d1.id = 3; d1.kon_ms = 100; d1.koff_ms = 50; d1.drum_key = 40; p.ins[60] = d1;
     pl::InsSpec d2; d2.id = 4; d2.kon_ms = 2000; d2.koff_ms = 300; d2.drum_key = 45; p.ins[62] = d2;
     // key 64 stays blank
+    for(auto *bk : {&m, &p}) for(auto &e : bk->ins) e.second.koff_ms = (uint16_t)std::min(65535, e.second.koff_ms * g_koff_scale);
     g_bank = pl::make_wopn({m, p});
 }
 
@@ -197,6 +199,10 @@ struct RtModel : mcx::Model {
                 key++;
                 if(c % 4 == 1) I->in.generate_ms(25);
             }
+        }
+        if(sn.find("busy6same") != std::string::npos) {
+            // six key-down notes of one timbre on MIDI channel 0: one chip is full, a 7th note of another timbre must evict or (with arpeggio) evacuate
+            for(int k = 40; k < 46; k++) opn2_rt_noteOn(d, 0, (OPN2_UInt8)k, 100);
         }
         if(sn.find("busy5") != std::string::npos) {
             opn2_rt_controllerChange(d, 1, 64, 127);
@@ -455,6 +461,7 @@ int main(int argc, char **argv) {
     mcx::Args a = mcx::parse_args(argc, argv);
     if(a.extra.count("prop")) g_prop = a.extra["prop"];
     if(a.extra.count("chips")) g_chips = atoi(a.extra["chips"].c_str());
+    if(a.extra.count("koff-scale")) g_koff_scale = atoi(a.extra["koff-scale"].c_str());
     pl::install_hooks(true);
     build_bank(); build_song();
     RtModel m;
